@@ -67,6 +67,17 @@ CHECKS = {
     {"pkg": "./stage", "test": "TestC01", "shards": {"quick": 16, "thorough": 16}},
   ],
  },
+ "C05": {
+  "engine": "E-HIST",
+  "rule": "breadth-first search over retransmission histories on the real stage.Stage + real receive log in virtual time; the harness consumes the final directory after every step and counts arrivals and log records per (name, hash); states deduplicated on sandbox listing + private stage state; non-trivial = at least two part receptions",
+  "level": "Every retransmission history within the bounds is executed on the real Stage; arrivals and log records per version are counted in every reached state and every 'did you receive'/poll answer after a delivery is checked.",
+  "note": "Bounds: see coverage.parts[].bound. Receiver crashes (which may repeat the log record) are C06's subject; log records are at most 25 h old.",
+  "technique": "explicit-state breadth-first search over operation histories on the implementation in virtual time, invariant oracle",
+  "assumptions": ["single-P deterministic schedule between harness actions", "cache ageing (production: every 1000 files) is invoked directly"],
+  "parts": [
+    {"pkg": "./stage", "test": "TestC05", "shards": {"quick": 16, "thorough": 16}},
+  ],
+ },
 }
 
 NOT_APPLICABLE = {}
